@@ -8,6 +8,9 @@ type rootErr struct{ s string }
 
 func (e *rootErr) Error() string { return e.s }
 
+// a foreign error that itself wraps another one (like *net.OpError): Cause must stop at it
+func (e *rootErr) Unwrap() error { return io.ErrClosedPipe }
+
 // HarnessC08_Errors: every nesting of the constructors over a root error.
 func HarnessC08_Errors() {
 	var root error
